@@ -198,7 +198,21 @@ def assembly_cases(ctx):
                 want = ref if vector else ref[:, 2]
                 if np.abs(got - want).max() > 1e-9 * scale.max():
                     fail("field-vs-si", f"field_at_position differs from the SI Biot-Savart sum (step {step}, vector={vector})", step=step)
+            # unit handling of the assembled quantities: other field units, positions given as (m, 3), quantities with units
+            f_mT = np.asarray(sol.field_at_position(pos, zs=0.6, with_units=False))
+            f_uT = np.asarray(sol.field_at_position(np.concatenate([pos, np.full((3, 1), 0.6)], axis=1), units="uT", with_units=False))
+            f_q = sol.field_at_position(pos, zs=np.full(3, 0.6), units="tesla", with_units=True)
+            f_H = np.asarray(sol.field_at_position(pos, zs=0.6, units="A/m", with_units=False))
+            mu0 = em.ureg("mu_0").to_base_units().magnitude
+            sc_f = np.abs(f_mT).max() + 1e-300
+            if (np.abs(f_uT - 1e3 * f_mT).max() > 1e-9 * 1e3 * sc_f or np.abs(np.asarray(f_q.to("mT").magnitude) - f_mT).max() > 1e-9 * sc_f
+                    or np.abs(f_H * mu0 * 1e3 - f_mT).max() > 1e-9 * sc_f):
+                fail("field-units", f"field_at_position is inconsistent between unit choices / input forms (step {step})", step=step)
             ap = sol.vector_potential_at_position(pos, zs=0.6, return_sum=False, with_units=False)
+            a_nm = np.asarray(sol.vector_potential_at_position(pos, zs=0.6, units="uT * nm", with_units=False))
+            a_def = np.asarray(sol.vector_potential_at_position(pos, zs=0.6, with_units=False))
+            if np.abs(a_nm - 1e6 * a_def).max() > 1e-9 * 1e6 * (np.abs(a_def).max() + 1e-300):
+                fail("potential-units", f"vector_potential_at_position is inconsistent between unit choices (step {step})", step=step)
             at = sol.vector_potential_at_position(pos, zs=0.6, return_sum=True, with_units=False)
             if not np.allclose(at, ap["applied"] + ap["supercurrent_density"] + ap["normal_current_density"], rtol=1e-13, atol=0):
                 fail("potential-sum-of-parts", f"vector_potential_at_position total != applied + supercurrent + normal (step {step})", step=step)
